@@ -12,11 +12,9 @@
    The missing-member property is proved in FULL as well (the compressed_axes member is always written and always
    required since /repo commit 19bbdac): every strict subset of the members of a saved file is rejected.
 
-   Full statement of the Numba round trip:
-       forall dt c, shape_ok c -> canonicalb c = true -> nb_roundtrip dt c = Ok (ACoo c).
-   FALSE: COOType.shape_type types the shape tuple with the *coordinate* dtype, so an extent that does not fit that
-   dtype is reduced modulo 2^w (numba_boxing_roundtrip_refuted: shape (300,) with int8 coordinates comes back as
-   shape (44,)); proved under the clause nb_shape_fits. *)
+   The Numba statements are proved in FULL as well since /repo eb8a9b8 (the native shape member is a tuple of intp and
+   the in-Numba constructor casts the given shape to it): the former clauses NB_shape_fits_coords_dtype and
+   NB_construct_shape_type are gone. *)
 From Coq Require Import ZArith List Bool String.
 From Verif Require Import Py Shape COO S_npz Npz Crc32 Crc32P NpzP.
 Import ListNotations.
@@ -131,48 +129,27 @@ Example copy_nonvacuous_example :
   /\ refs Z (snd w_heap_obj) = [0; 1].
 Proof. exact copy_nonvacuous. Qed.
 
-(* ---- a pass through a Numba-compiled function: unbox_COO then box_COO *)
-Theorem numba_boxing_roundtrip_partial :
+(* ---- a pass through a Numba-compiled function: unbox_COO then box_COO, for every coordinate dtype dt *)
+Theorem numba_boxing_roundtrip :
   forall (V : Type) (dt : Z * bool) (c : coo V),
-    forallb (fun d => 0 <=? d) (c_shape c) = true -> canonicalb c = true -> nb_shape_fits V dt c = true ->
+    forallb (fun d => 0 <=? d) (c_shape c) = true -> canonicalb c = true ->
     nb_roundtrip V dt c = Ok (ACoo c).
-Proof. exact numba_boxing_roundtrip_partial_proof. Qed.
-Print Assumptions numba_boxing_roundtrip_partial.
+Proof. exact numba_boxing_roundtrip_proof. Qed.
+Print Assumptions numba_boxing_roundtrip.
 
-Example numba_boxing_nonvacuous :
-  let c := mkCOO [2; 3] [[0; 1]; [1; 2]] [5; 6] 3 in
-  forallb (fun d => 0 <=? d) (c_shape c) = true /\ canonicalb c = true /\ nb_shape_fits Z (64, true) c = true.
-Proof. repeat split. Qed.
-
-Theorem numba_boxing_roundtrip_refuted :
-  exists (dt : Z * bool) (c : coo Z),
-    forallb (fun d => 0 <=? d) (c_shape c) = true /\ canonicalb c = true /\
-    nb_roundtrip Z dt c = Ok (ACoo (mkCOO [44] [[0]; [1]] [5; 6] 0)) /\ nb_roundtrip Z dt c <> Ok (ACoo c).
-Proof. exact numba_boxing_roundtrip_refuted_proof. Qed.
-Print Assumptions numba_boxing_roundtrip_refuted.
-
-(* ---- `COO(coords, data, shape)` inside a Numba-compiled function (impl_COO), then boxing.
-   Full statement: forall c with zero fill, nb_construct zero dt c = Ok (ACoo c); FALSE for 0-d arrays and for any
-   coordinate dtype that is not 64 bits wide (the shape tuple cannot be stored into the record: TypeError at compile time). *)
-Theorem numba_construct_partial :
+(* ---- `COO(coords, data, shape)` inside a Numba-compiled function (impl_COO), then boxing: every ndim (0-d included)
+   and every coordinate dtype; the fill value of the result is the zero of the data dtype *)
+Theorem numba_construct :
   forall (V : Type) (zero : V) (dt : Z * bool) (c : coo V),
     forallb (fun d => 0 <=? d) (c_shape c) = true -> canonicalb c = true -> c_fill c = zero ->
-    nb_construct_typed dt (c_shape c) = true ->
     nb_construct V zero dt c = Ok (ACoo c).
-Proof. exact numba_construct_partial_proof. Qed.
-Print Assumptions numba_construct_partial.
+Proof. exact numba_construct_proof. Qed.
+Print Assumptions numba_construct.
 
-Example numba_construct_nonvacuous :
-  let c := mkCOO [2; 3] [[0; 1]; [1; 2]] [5; 6] 0 in
-  forallb (fun d => 0 <=? d) (c_shape c) = true /\ canonicalb c = true /\ nb_construct_typed (64, true) (c_shape c) = true.
-Proof. repeat split. Qed.
-
-Theorem numba_construct_refuted :
-  exists c : coo Z,
-    forallb (fun d => 0 <=? d) (c_shape c) = true /\ canonicalb c = true /\ c_fill c = 0 /\
-    nb_construct Z 0 (64, true) c = Raise TypeError.
-Proof. exact numba_construct_refuted_proof. Qed.
-Print Assumptions numba_construct_refuted.
+Example numba_nonvacuous_example :
+  Forall (fun c => forallb (fun d => 0 <=? d) (c_shape c) = true /\ canonicalb c = true /\ c_fill c = 0) [w_nb; w_nb_0d]
+  /\ nb_roundtrip Z (8, true) w_nb = Ok (ACoo w_nb) /\ nb_construct Z 0 (8, true) w_nb_0d = Ok (ACoo w_nb_0d).
+Proof. exact numba_nonvacuous. Qed.
 
 (* ---- part of the container oracle replaced by a theorem: CRC-32 as zlib computes it (Model/Crc32.v, validated against
    zlib.crc32 and the CRC fields of real archives by the campaign) detects every single-byte change of a message *)
